@@ -29,6 +29,7 @@ var c07Inner = []string{
 	"SELECT a + b AS a, b FROM t",
 	"SELECT a, b FROM t ORDER BY a DESC",
 	"SELECT a, b FROM t WHERE a > ? AND b <= a",
+	"SELECT SUM(a) AS a, COUNT(*) AS b FROM t WHERE a > ?",
 }
 
 var c07Outer = []string{
